@@ -93,7 +93,8 @@ def run(tier):
                                                       'edges': sum(1 for _ in g.edges()), 'paths': len(paths)})
             for k, (start, path) in enumerate(paths):
                 cases.append({'np': np_, 'rl': rl, 'readers': readers, 'init': g.states[start],
-                              'path': [(a, g.states[n]) for a, n in path], 'payloads': PAYLOADS[k % 3:] + PAYLOADS[:k % 3]})
+                              'path': [(a, g.states[n]) for a, n in path], 'payloads': PAYLOADS[k % 3:] + PAYLOADS[:k % 3],
+                              'corrupt_kind': k // 3})
         res = pmap(replay_queue_path, cases, procs=16, chunk=10, recycle=400)
         for c, o in zip(cases, res):
             ck.count(evaluations=1, traces=1, nontrivial=1 if len(c['path']) > 4 else 0)
